@@ -24,7 +24,7 @@ ANCHORS = [
     "stereomolgraph.stereodescriptors:_StereoMixin.invert",
 ]
 REQUIRED_ANCHORS = ANCHORS
-REQUIRED = ["enantiomers", "meso_cases", "chiral_cases", "axis_only_cases", "with_bond_changes", "with_atom_changes", "chirality_decided", "with_unspecified"]
+REQUIRED = ["enantiomers", "meso_cases", "chiral_cases", "axis_only_cases", "with_bond_changes", "with_atom_changes", "chirality_decided", "with_unspecified", "derived_states", "dangling_descriptor_states"]
 CASE_TIMEOUT = 60
 
 
@@ -180,6 +180,52 @@ def check_case(ctx, case):
             ctx.violate(f"C06/chirality-wrong/{cls}/{'equal-but-chiral' if not truth else 'unequal-but-achiral'}/{'axis-only' if axis_only else 'centres'}", f"g == g.enantiomer() is {r1}/{r2}, reference search for an isomorphism onto the mirror image says {truth}", case)
     ctx.case((sem.canon_key(pg), verdict, case["kind"]), bool(chiral_descs))
     ctx.sample({"class": cls, "kind": case["kind"], "chirality": verdict, "graph": case["pg"]})
+    _derived_states(ctx, case, g, cls)
+
+
+def _derived_states(ctx, case, g, cls):
+    """states only editing / decomposition reach: a descriptor that has outlived one of its bonds (remove_bond keeps
+    descriptors; reactant() / product() of a reaction keep a descriptor on a formed / broken bond). Such a graph is
+    still a stereo graph: its enantiomer inverts every chiral descriptor it holds."""
+    import random as _r
+
+    rng = _r.Random(case["bseed"] ^ 0x5A5A)
+    states = []
+    if cls == "StereoCondensedReactionGraph" and rng.random() < 0.5:
+        try:
+            states.append(("reactant", g.reactant()))
+            states.append(("product", g.product()))
+        except Exception:  # noqa: BLE001  (C08's subject)
+            pass
+    if rng.random() < 0.4:
+        h = g.copy()
+        with_desc = sorted((tuple(sorted(b, key=repr)) for b in list(h.bond_stereo) if h.has_bond(*tuple(b))), key=repr)
+        near = sorted((tuple(sorted((c, n), key=repr)) for c, d in h.atom_stereo.items() for n in d.atoms[1:] if n is not None and h.has_bond(c, n)), key=repr)
+        pool = with_desc * 3 + near
+        if pool:
+            x, y = rng.choice(pool)
+            h.remove_bond(x, y)
+            states.append(("bond-removed", h))
+    for tag, h in states:
+        src = snap(h)
+        dangling = [b for b in src["bstereo"] if b not in src["bonds"]]
+        ctx.count("derived_states")
+        if dangling:
+            ctx.count("dangling_descriptor_states")
+        try:
+            e = h.enantiomer()
+        except Exception as ex:  # noqa: BLE001
+            ctx.violate(f"C06/enantiomer-raises:{type(ex).__name__}/{cls}/{tag}", f"enantiomer() of the {tag} state raised {ex!r}", case)
+            continue
+        want, got = sem.pg_mirror(src), snap(e)
+        for S in (want, got):
+            S["achange"] = {k: v for k, v in S["achange"].items() if v}
+            S["bchange"] = {k: v for k, v in S["bchange"].items() if v}
+        diff = sem.pg_diff(want, got, mode="equiv", attrs=True)
+        if diff:
+            ctx.violate(f"C06/not-the-mirror-image/{cls}/{tag}{'/dangling-descriptor' if dangling else ''}", f"enantiomer() of the {tag} state differs from the mirror image: {'; '.join(diff[:2])}", case)
+        if sem.pg_diff(src, snap(h), mode="exact"):
+            ctx.violate(f"C06/original-modified/{cls}/{tag}", "enantiomer() changed the original", case)
 
 
 def _ne(S):
